@@ -53,7 +53,7 @@ def step (t : Tbl) (e : Event) : Tbl × List (Key × Report) :=
   match key e with
   | none => (t, [])
   | some k =>
-    let cur := match t.get k with | some a => a | none => create k.1 e
+    let cur := (t.get k).getD (create k.1 e)
     let a := upd cur e
     if isFinal e then (t.del k, [(k, a)]) else (t.set k a, [])
 
